@@ -15,11 +15,18 @@
     `dns_lookup_terminates` are the theorems about the fixed code; ops `conc.dns_size0`).
   * (fixed in /repo 69aec98) eventV2.EventID() used to write EventIDRaw on first use without a lock; the ID is now
     computed at construction and the accessor is read-only: `event_accessors_read_only`.
+  * (fixed in /repo 3755557) KeyRing.VerifyJSONs ended with `StoreKeys(keysFetched)` — everything it held, including the
+    entries it had only READ from the database: of two concurrent calls on one database, the one whose fetch failed
+    wrote the stale entry it had read back over the fresh entry the other one had fetched and stored in between (a lost
+    update; no sequential order of the two calls leaves the stale entry).  `verify_store_only_fetched`,
+    `verify_no_lost_update`, `verify_serializable_one_writer` are the theorems about the fixed code; ops `conc.verify2`.
 -/
 import VModel.ConcDns
 import VModel.ConcFetch
 import VProofs.ConcDns
 import VProofs.ConcFetch
+import VModel.ConcVerify
+import VProofs.ConcVerify
 namespace V.C19
 open V.Conc V.Conc.Dns
 
@@ -497,6 +504,161 @@ example :
     run.map (fun p => (p.b.mainDone, rget ("s0", "ed25519:a") p.b.results)) = some (true, some ⟨1, 0, 1000⟩) := by decide
 
 end Fetch
+
+/-! ## several `KeyRing.VerifyJSONs` calls on one key ring with one shared key database
+
+  Model: VModel.ConcVerify — a move lets one caller run to the next of its three barriers (database read, fetcher call,
+  database store); what a call computes in between is the sequential model of C12 (`KeyRing.verifyJSONs`).
+  `Verify.Reachable` is the closure of the initial state under `Verify.poke`: any number of callers, any requests, any
+  per-caller fetcher behaviour, any schedule. -/
+
+section Verify
+open V.KeyRing V.Conc.Verify
+
+/-- **A store writes only what its caller fetched.**  Whatever the schedule, an entry that is in the database after a move and
+    was not there before is an entry of the answer of one of the moving caller's own fetchers — never an entry the caller
+    merely read (which another caller may have replaced since). -/
+theorem verify_store_only_fetched {cs : List Caller} {now : Nat} {db0 : KeyMap} {s : Verify.State} (h : Verify.Reachable cs now db0 s)
+    (g : Nat) (e : KeyReq × KeyRes) (he : e ∈ (poke cs now s g).1.db) :
+    e ∈ s.db ∨ ∃ c, cs[g]? = some c ∧ ∃ m, some m ∈ c.fetchers ∧ e ∈ m := by
+  rcases db_poke cs now s g with h1 | ⟨c, r, m, hc, hp, h1⟩
+  · left; rw [h1] at he; exact he
+  · rw [h1] at he
+    rcases mem_dbStore he with h2 | h2
+    · exact Or.inl h2
+    · right
+      obtain ⟨snap, hsnap⟩ := wf_of_reachable h g c r m hc hp
+      have hrun : verifyJSONs c.reqs (some snap) true c.fetchers now = ((localRun c now snap).1, (localRun c now snap).2) := rfl
+      obtain ⟨call, _, m', hm', hem⟩ := verifyJSONs_stored_mem hrun m hsnap e h2
+      exact ⟨c, hc, m', List.mem_of_getElem? hm', hem⟩
+
+/-- the key's entry after a move is the one before, or one a fetcher of the moving caller answered -/
+theorem verify_entry_after_move {cs : List Caller} {now : Nat} {db0 : KeyMap} {s : Verify.State} (h : Verify.Reachable cs now db0 s)
+    (g : Nat) (q : KeyReq) :
+    AList.lookup q (poke cs now s g).1.db = AList.lookup q s.db ∨
+      ∃ c v m, cs[g]? = some c ∧ some m ∈ c.fetchers ∧ (q, v) ∈ m ∧ AList.lookup q (poke cs now s g).1.db = some v := by
+  rcases db_poke cs now s g with h1 | ⟨c, r, m, hc, hp, h1⟩
+  · left; rw [h1]
+  · rw [h1]
+    rcases lookup_dbStore s.db m q with h2 | ⟨v, hv, h2⟩
+    · exact Or.inl h2
+    · right
+      obtain ⟨snap, hsnap⟩ := wf_of_reachable h g c r m hc hp
+      have hrun : verifyJSONs c.reqs (some snap) true c.fetchers now = ((localRun c now snap).1, (localRun c now snap).2) := rfl
+      obtain ⟨call, _, m', hm', hem⟩ := verifyJSONs_stored_mem hrun m hsnap (q, v) hv
+      exact ⟨c, v, m', hc, List.mem_of_getElem? hm', hem, h2⟩
+
+/-- **No lost update.**  Let every answer of every caller's fetchers be part of one "world" `W` (the remote side holds one
+    key per (server, key ID); individual fetches may fail or come back empty).  Once the database holds the world's entry for
+    a key, no move of any caller under any schedule replaces it — in particular not the store of a caller that read the
+    database before that entry was written. -/
+theorem verify_no_lost_update {cs : List Caller} {now : Nat} {db0 : KeyMap} {s : Verify.State} {W : KeyMap}
+    (hW : (W.map Prod.fst).Nodup) (hworld : ∀ c ∈ cs, ∀ m, some m ∈ c.fetchers → ∀ e ∈ m, e ∈ W)
+    (h : Verify.Reachable cs now db0 s) (g : Nat) (q : KeyReq) (v : KeyRes) (hq : AList.lookup q W = some v)
+    (hs : AList.lookup q s.db = some v) : AList.lookup q (poke cs now s g).1.db = some v := by
+  rcases verify_entry_after_move h g q with h1 | ⟨c, v', m, hc, hm, hv', h1⟩
+  · rw [h1]; exact hs
+  · have hmemW : (q, v') ∈ W := hworld c (List.mem_of_getElem? hc) m hm _ hv'
+    have := AList.lookup_of_mem_nodup hW hmemW
+    rw [hq] at this
+    cases this
+    exact h1
+
+/-- … and at every moment every key's entry is the initial one or the world's -/
+theorem verify_db_initial_or_world {cs : List Caller} {now : Nat} {db0 : KeyMap} {s : Verify.State} {W : KeyMap}
+    (hW : (W.map Prod.fst).Nodup) (hworld : ∀ c ∈ cs, ∀ m, some m ∈ c.fetchers → ∀ e ∈ m, e ∈ W)
+    (h : Verify.Reachable cs now db0 s) (q : KeyReq) :
+    AList.lookup q s.db = AList.lookup q db0 ∨ AList.lookup q s.db = AList.lookup q W := by
+  induction h with
+  | init => exact Or.inl rfl
+  | step g hr ih =>
+    rcases verify_entry_after_move hr g q with h1 | ⟨c, v', m, hc, hm, hv', h1⟩
+    · rw [h1]; exact ih
+    · right
+      have hmemW : (q, v') ∈ W := hworld c (List.mem_of_getElem? hc) m hm _ hv'
+      rw [h1, AList.lookup_of_mem_nodup hW hmemW]
+
+/-- **Every interleaving is a sequential execution** when at most one caller (`x`) ever has something to store (`Silent`:
+    the other callers' runs hand `StoreKeys` nothing, whatever they read — e.g. their fetches fail).  In any state any
+    schedule leads to in which every caller has returned, the results the callers hold (`heldIn`) and the database are
+    exactly those of running the calls one after the other, alone, in some order of the callers. -/
+theorem verify_serializable_one_writer {cs : List Caller} {now : Nat} {db0 : KeyMap} (x : Nat) (hsil : Silent cs now x)
+    {s : Verify.State} (h : Verify.Reachable cs now db0 s) (hall : ∀ g, g < cs.length → ∃ r, s.pcs[g]? = some (PC.done r)) :
+    ∃ order : List Nat, order.Perm (List.range cs.length) ∧ serial cs now order db0 = (heldIn s order, s.db) :=
+  serializable_of_inv hsil (inv_of_reachable hsil h) hall
+
+/-- callers whose fetchers all fail or answer nothing are `Silent` … -/
+theorem verify_silent_of_failing_fetchers {cs : List Caller} {now : Nat} (x : Nat)
+    (hfail : ∀ (g : Nat) (c : Caller), g ≠ x → cs[g]? = some c → ∀ f ∈ c.fetchers, f = none ∨ f = some []) : Silent cs now x := by
+  intro g c hg hc snap
+  have hrun : verifyJSONs c.reqs (some snap) true c.fetchers now = ((localRun c now snap).1, (localRun c now snap).2) := rfl
+  exact verifyJSONs_stored_silent hrun (hfail g c hg hc)
+
+/-- … so: **if the fetches of all callers but one fail, every schedule of the calls gives every caller the result, and
+    leaves the database in the state, of one sequential execution** (stated for a schedule: a list of moves). -/
+theorem verify_interleaving_is_sequential {cs : List Caller} {now : Nat} {db0 : KeyMap} (x : Nat)
+    (hfail : ∀ (g : Nat) (c : Caller), g ≠ x → cs[g]? = some c → ∀ f ∈ c.fetchers, f = none ∨ f = some [])
+    (sched : List Nat)
+    (hall : ∀ g, g < cs.length → ∃ r, (run cs now (Verify.init db0 cs.length) sched).pcs[g]? = some (PC.done r)) :
+    ∃ order : List Nat, order.Perm (List.range cs.length) ∧
+      serial cs now order db0 =
+        (heldIn (run cs now (Verify.init db0 cs.length) sched) order, (run cs now (Verify.init db0 cs.length) sched).db) :=
+  verify_serializable_one_writer x (verify_silent_of_failing_fetchers x hfail) (Verify.reachable_run Verify.Reachable.init sched) hall
+
+/-- how far a caller is from returning -/
+def verifyRank : PC → Nat
+  | .idle => 4 | .atRead => 3 | .atFetch _ => 2 | .atStore _ _ => 1 | .done _ => 0
+
+/-- **No deadlock, and every call returns**: a caller can always move (`poke` is total: no move waits for another caller),
+    and each of its moves brings it strictly closer to returning — after at most four moves it has returned. -/
+theorem verify_progress (c : Caller) (now : Nat) (db : KeyMap) (pc : PC) (h : isDone pc = false) :
+    verifyRank (nextPC c now db pc) < verifyRank pc := by
+  cases pc with
+  | idle => simp only [nextPC]; split <;> simp [verifyRank]
+  | atRead =>
+    simp only [nextPC, afterRead]
+    split
+    · simp [verifyRank]
+    · unfold toStoreBarrier; split <;> simp [verifyRank]
+  | atFetch snap =>
+    simp only [nextPC, afterFetch]
+    unfold toStoreBarrier; split <;> simp [verifyRank]
+  | atStore r m => simp [nextPC, verifyRank]
+  | done r => cases h
+
+/-! ### the audit's scenario (defect V1), kernel-checked on the model of the fixed code -/
+
+def vKid : Bytes := algPrefix ++ [97]
+def vGood : Bytes := List.replicate 32 7
+def vQ : KeyReq := ⟨[115, 48], vKid⟩
+/-- a message signed by s0, to be valid at 4000 under the strict rule -/
+def vReq : Request := { server := [115, 48], atTS := 4000, strict := true, listOk := true,
+                        sigs := [{ keyID := vKid, reaches := true, verifies := fun k => k == vGood }] }
+def vStale : KeyRes := { key := vGood, expiredTS := 0, validUntilTS := 3000 }
+def vFresh : KeyRes := { key := vGood, expiredTS := 0, validUntilTS := 9000 }
+/-- caller 0: its fetch fails; caller 1: its fetch brings the fresh key; caller 2 (later): its fetch fails -/
+def vCallers : List Caller := [⟨[vReq], [none]⟩, ⟨[vReq], [some [(vQ, vFresh)]]⟩, ⟨[vReq], [none]⟩]
+
+/-- the database holds the key past its validity (now = 5000); caller 0 reads it and waits in its fetcher; caller 1 reads,
+    fetches and stores the fresh key; caller 0's fetch fails and it stores — nothing; caller 2 then verifies from the
+    database alone.  (Before the fix caller 0 wrote the stale entry back: the database ended at `vStale`, caller 2 failed.) -/
+example :
+    let s := run vCallers 5000 (Verify.init [(vQ, vStale)] 3) [0, 0, 1, 1, 1, 1, 0, 0, 2, 2, 2, 2]
+    s.db = [(vQ, vFresh)] ∧ resultOf s 0 = some (.ok [false]) ∧ resultOf s 1 = some (.ok [true]) ∧ resultOf s 2 = some (.ok [true]) := by
+  refine ⟨by rfl, by rfl, by rfl, by rfl⟩
+
+/-- … which is the outcome of the sequential execution 0, 1, 2 -/
+example : serial vCallers 5000 [0, 1, 2] [(vQ, vStale)] = ([(0, .ok [false]), (1, .ok [true]), (2, .ok [true])], [(vQ, vFresh)]) := by rfl
+
+/-- the hypothesis of `verify_interleaving_is_sequential` holds of it (x = 1) -/
+example : ∀ (g : Nat) (c : Caller), g ≠ 1 → vCallers[g]? = some c → ∀ f ∈ c.fetchers, f = none ∨ f = some [] := by
+  intro g c hg hc f hf
+  match g, hg with
+  | 0, _ => simp [vCallers] at hc; subst hc; simp at hf; exact Or.inl hf
+  | 2, _ => simp [vCallers] at hc; subst hc; simp at hf; exact Or.inl hf
+  | n + 3, _ => simp [vCallers] at hc
+
+end Verify
 
 /-! ## destinationTripper.getTransport / reaper -/
 
